@@ -33,6 +33,18 @@ def sorted_x(rng, m, kind=None):
     return out
 
 
+def loose_x(rng, m):
+    """abscissae that are NOT small dyadics: decimal grids (k*0.1) and uniform grids with a tiny jitter.
+    Only for units whose code never compares abscissae with == or <= against derived values."""
+    if rng.random() < 0.5:
+        step = rng.choice([0.1, 0.3, 0.05, 300.0])
+        x0 = rng.choice([0.0, 1.7, -2.3]) if step < 1 else rng.choice([0.0, 1.7e6])    # keep differences well above the ulp of the level
+        return [x0 + i * step for i in range(m)]
+    x0 = rng.choice([0.0, 5.0, 1.7e6])
+    step = rng.choice([1.0, 300.0, 0.5])
+    return [x0 + i * step + (rng.randint(-8, 8) * 2.0 ** -14 if 0 < i < m - 1 else 0.0) for i in range(m)]
+
+
 def values(rng, m, kind=None):
     kind = kind or rng.choice(["dyadic", "dyadic", "int", "ties", "big", "const", "baseline", "tiny"])
     if kind == "baseline":   # small integer variation on a large level: absolute-magnitude shortcuts show up here
